@@ -4,10 +4,10 @@ CONSTANTS
   MaxSteps = 4
   NRepos = 2
   EmitEvery = 1
-  Unscoped = {}
+  Unscoped = {"counts"}
   JsonTree = FALSE
   StatusOnly = FALSE
-  RemoveDrops = TRUE
+  RemoveDrops = FALSE
 INIT Init
 NEXT Next
 VIEW view
